@@ -175,11 +175,59 @@ def graph_arch(gm, fold_pairs=None):
     """architecture of a traced module: one entry per compute node, in graph order"""
     out = []
     for n in gm.graph.nodes:
+        if n.op != 'output' and len(n.users) == 0:
+            continue            # a node nobody reads is not part of the computed function (counted separately)
         if n.op == 'call_module':
             out.append(hp(gm.get_submodule(str(n.target))))
         elif n.op in ('call_function', 'call_method'):
             t = n.target if isinstance(n.target, str) else getattr(n.target, '__name__', str(n.target))
             out.append(['fn', t])
+    return out
+
+
+def dead_nodes(gm):
+    return [str(n.target) for n in gm.graph.nodes if n.op not in ('output', 'placeholder') and len(n.users) == 0]
+
+
+def module_list(torch, model, method, excl):
+    """the user's model as the list of modules of Model/Import.v (graph order of the method's own tracer)"""
+    import torch.fx as fx
+    import torch.nn as nn
+    from plinio.methods.pit.nn.module import PITModule
+    from plinio.methods.supernet.nn.combiner import SuperNetCombiner
+    if method == 'sn':
+        from plinio.methods.supernet.graph import SuperNetTracer as T
+    elif method == 'mps':
+        from plinio.methods.mps.graph import MPSTracer as T
+    else:
+        from plinio.methods.pit.graph import PITTracer as T
+    mm = copy.deepcopy(model)
+    flags = {n: m.training for n, m in model.named_modules()}
+    tr = T()
+    g = tr.trace(mm.eval())
+    mods = dict(mm.named_modules())
+    names, out = [], []
+    for n in g.nodes:
+        if n.op != 'call_module' or str(n.target) in names:
+            continue
+        m = mods[str(n.target)]
+        if isinstance(m, PITModule) and not isinstance(m, (nn.BatchNorm1d, nn.BatchNorm2d)):
+            k = 'KPit'
+        elif type(m) in (nn.Conv1d, nn.Conv2d, nn.Linear):
+            k = 'KLayer'
+        elif isinstance(m, (nn.BatchNorm1d, nn.BatchNorm2d)):
+            k = 'KBn'
+        elif isinstance(m, SuperNetCombiner):
+            k = 'KComb'
+        else:
+            k = 'KOther'
+        prev, users = None, 0
+        if n.args and isinstance(n.args[0], fx.Node) and n.args[0].op == 'call_module' and str(n.args[0].target) in names:
+            prev = names.index(str(n.args[0].target))
+            users = len(n.args[0].users)
+        names.append(str(n.target))
+        out.append({'name': str(n.target), 'kind': k, 'excl': str(n.target) in excl, 'prev': prev, 'users': users,
+                    'fold': bool(getattr(m, 'fold_bn', False)) if k == 'KPit' else False, 'train': bool(flags[str(n.target)])})
     return out
 
 
@@ -273,6 +321,7 @@ def run_case(torch, seed, cfg):
         sd0, fl0 = snapshot(m)
         user_mods = dict(m.named_modules())
         leaf_names = [n for n, mod in user_mods.items() if n and not isinstance(mod, (nn.ModuleDict, nn.ModuleList)) and n.startswith('layers.')]
+        o['mods'] = module_list(torch, m, method, excl)
         exp_arch = None
         if method == 'pit':
             from plinio.methods.pit.nn import PITConv1d, PITConv2d, PITLinear
@@ -378,6 +427,9 @@ def run_case(torch, seed, cfg):
             if method == 'pit':
                 ob['export_arch'] = graph_arch(e)
                 ob['expected_arch'] = exp_arch
+                ob['export_dead_nodes'] = dead_nodes(e)
+                emods = dict(e.named_modules())
+                ob['exported_hp'] = {n: hp(emods[n]) for n in ob['pit_layers'] if n in emods}
         o['n_layers'] = len(convs)
         o['n_bn_after'] = len(bnf)
     except Exception as ex_:
